@@ -83,8 +83,17 @@ def isOkNoErr : Verdict → Bool
   | .done [] => true
   | _ => false
 
+def parsePosItem : Sexp → Option PosItem
+  | .node [.atom "s", t] => t.toTy.map (true, ·)
+  | .node [.atom "p", t] => t.toTy.map (false, ·)
+  | _ => none
+
 def handle (line : String) : String :=
   match readSexps line with
+  | some [.node (.atom "starmerge" :: its)] =>
+    match its.mapM parsePosItem with
+    | some its => (match starMerge its with | some t => t.show | none => "none")
+    | none => "bad-op"
   | some [.node [.atom kind, .node (.atom "params" :: ps), .node [.atom "ret", ret],
       .node (.atom "tvs" :: tvs), .node [.atom "self", self], .node [.atom "cls", .atom cls],
       .node (.atom "pos" :: pos), .node (.atom "kws" :: kws), .node [.atom "tmpl", tm]]] =>
